@@ -11,13 +11,13 @@ open Rscp Rscp.Model
 /-- the instrumented machine is the client machine -/
 theorem io_is_sendMultiple (cred : Cred) (st : CState) (reqs : List Msg) (sc : Script) :
     (sendMultipleIO cred st reqs sc).1 = sendMultiple cred st reqs sc := by
-  sorry
+  exact sendMultipleIO_fst cred st reqs sc
 
 /-- a call performs at most: one dial, then write+receive for the authentication, then write+receive for the
     request — in that order -/
 theorem io_shape (cred : Cred) (st : CState) (reqs : List Msg) (sc : Script) :
     List.Sublist (sendMultipleIO cred st reqs sc).2 [.dial, .write, .recv, .write, .recv] := by
-  sorry
+  exact sendMultipleIO_sublist cred st reqs sc
 
 /-- hence, if every blocking operation returns within the budget the code gives it (the runtime assumption),
     a call returns within connection + 2·send + 2·receive timeouts; `dur` is the time each operation took -/
@@ -26,24 +26,42 @@ theorem call_bounded (cfg : Config) (cred : Cred) (st : CState) (reqs : List Msg
     (dur : List Int) (hlen : dur.length = (sendMultipleIO cred st reqs sc).2.length)
     (hdur : ∀ i (h : i < dur.length), dur[i] ≤ budget cfg ((sendMultipleIO cred st reqs sc).2[i]'(hlen ▸ h))) :
     dur.sum ≤ cfg.connTimeout + 2 * cfg.sendTimeout + 2 * cfg.recvTimeout := by
-  sorry
+  have h1 := sum_le_map_sum (budget cfg) dur (sendMultipleIO cred st reqs sc).2 hlen hdur
+  have h2 := map_sum_le_of_sublist (budget cfg) (budget_nonneg cfg hpos) (sendMultipleIO_sublist cred st reqs sc)
+  rw [full_budget] at h2
+  omega
 
 /-- one `receive` under one absolute deadline returns by that deadline, whatever the peer does: however many
     reads succeed, however late or never a frame completes (trickle, endless data, silence) -/
 theorem receive_deadline_absolute (R t0 : Int) (arrivals : List Int) (k : Nat) (hR : 0 ≤ R) :
     recvReturnsAt R t0 arrivals k ≤ t0 + R := by
-  sorry
+  have _ := hR  -- not needed: the bound holds for every R
+  exact recvReturnsAt_le R t0 arrivals k
 
 /-- whereas re-arming the deadline before every read would let a trickling peer hold the call for any time B -/
 theorem rearming_is_unbounded (R t0 B : Int) (hR : 2 ≤ R) :
     ∃ arrivals k, recvReturnsAtRearmed R t0 arrivals k > t0 + B := by
-  sorry
+  refine ⟨trickle t0 (B.toNat + 1), B.toNat, ?_⟩
+  rw [rearmed_trickle R hR]
+  omega
 
 /-- zero or negative timeouts fall back to 3 s, so every budget is positive (from C16) -/
 theorem timeouts_defaulted (c c' : Config) (h : checkConfig c = .ok c') :
     0 < budget c' .dial ∧ 0 < budget c' .write ∧ 0 < budget c' .recv ∧
     (c.connTimeout ≤ 0 → budget c' .dial = 3000000000) ∧ (c.sendTimeout ≤ 0 → budget c' .write = 3000000000) ∧
     (c.recvTimeout ≤ 0 → budget c' .recv = 3000000000) := by
-  sorry
+  obtain ⟨s1, s2, s3, _⟩ := C16.effective_config_sane c c' h
+  obtain ⟨_, d1, d2, d3, _⟩ := C16.defaults c c' h
+  refine ⟨s1, s2, s3, ?_, ?_, ?_⟩
+  · intro hc; show c'.connTimeout = 3000000000; rw [d1, if_pos hc]
+  · intro hc; show c'.sendTimeout = 3000000000; rw [d2, if_pos hc]
+  · intro hc; show c'.recvTimeout = 3000000000; rw [d3, if_pos hc]
 
 end Rscp.Props.C10
+
+#print axioms Rscp.Props.C10.io_is_sendMultiple
+#print axioms Rscp.Props.C10.io_shape
+#print axioms Rscp.Props.C10.call_bounded
+#print axioms Rscp.Props.C10.receive_deadline_absolute
+#print axioms Rscp.Props.C10.rearming_is_unbounded
+#print axioms Rscp.Props.C10.timeouts_defaulted
